@@ -4,7 +4,7 @@ from __future__ import annotations
 import copy
 
 from hypothesis import strategies as st
-from labrea import WithDefaultOptions, WithOptions
+from labrea import WithDefaultOptions, WithOptions, dataset
 
 from .. import sem, specgen, universe as U
 from ..build import build, run
@@ -53,9 +53,9 @@ def effective(layers, o):
     cur = copy.deepcopy(o)
     P_total, D_total = {}, {}
     for ly in layers:  # outer -> inner
-        if ly["how"] == "WithOptions":
+        if ly["how"] in ("WithOptions", "redecorate_options"):
             cur = U.overlay(cur, ly["opts"])
-        elif ly["how"] == "WithDefaultOptions":
+        elif ly["how"] in ("WithDefaultOptions", "redecorate_default_options"):
             cur = U.overlay(ly["opts"], cur)
     for ly in layers:
         if ly["how"] in ("ds_options", "with_options"):
@@ -94,6 +94,13 @@ def wrap(spec, layers):
             held.append((d, ly["opts"]))
         elif ly["how"] == "WithDefaultOptions":
             obj = WithDefaultOptions(obj, d)
+            held.append((d, ly["opts"]))
+        elif ly["how"] == "redecorate_options":
+            # the decorator applied to an existing dataset / combinator: a new dataset around it with the options pre-set
+            obj = dataset(options=d)(obj)
+            held.append((d, ly["opts"]))
+        elif ly["how"] == "redecorate_default_options":
+            obj = dataset(default_options=d)(obj)
             held.append((d, ly["opts"]))
     return b, obj, held
 
@@ -197,7 +204,8 @@ def cases(draw, prof):
     layers = []
     taken = {"P": [], "D": []}
     for _ in range(n):
-        how = draw(st.sampled_from(["WithOptions", "WithDefaultOptions", "ds_options", "ds_default_options", "with_options", "with_default_options"]))
+        how = draw(st.sampled_from(["WithOptions", "WithDefaultOptions", "ds_options", "ds_default_options", "with_options", "with_default_options",
+                                    "redecorate_options", "redecorate_default_options"]))
         opts = draw(layer_dicts())
         if how in DATASET_LEVEL:
             side = "P" if how in ("ds_options", "with_options") else "D"
@@ -293,6 +301,8 @@ def check_siblings(case, ctx):
                 same_leaf = True
     if same_leaf:
         labels.add("siblings-disagree-on-a-leaf")
+    if x["body"] == "tagmut":
+        labels.add("body-works-in-place-on-defaults")
     ctx.done(case, same_leaf and "switched-sibling" in labels, labels)
 
 
@@ -319,6 +329,13 @@ def sibling_cases(draw, prof):
             if not related(k2, hot):
                 layers.insert(draw(st.integers(0, 1)), {"how": draw(st.sampled_from(["with_options", "with_default_options"])), "opts": U.nest({k2: val(k2)})})
         sibs.append(layers)
+    x = spec["defs"][-1]
+    if x["body"] == "tag" and not x.get("partial") and draw(st.integers(0, 2)) == 0:
+        # X works in place on its arguments, some of which come from constant defaults holding nested containers: every
+        # computed evaluation must see the declared default again
+        x["params"] = [{"k": "opt", "key": k, "default": {"t": "const", "v": draw(st.sampled_from([{"q": [1], "r": {"s": 1}}, [[1], [2]], {"q": 1}, [1]]))}}
+                       for k in draw(st.lists(st.sampled_from(["A", "B", "S.X", "S.Y"]), min_size=1, max_size=2, unique=True))]
+        x["body"] = "tagmut"
     if draw(st.integers(0, 3)) == 0:
         sibs.append([])      # the base object itself takes part
     o = draw(U.option_dicts(p_present=draw(st.sampled_from([0.6, 0.9]))))
